@@ -2701,4 +2701,152 @@ theorem built_late (s : Sig) (F : Functor) (n : Named) (hB : Built s F n) (ops :
       obtain ⟨hB'', e3, e4⟩ := ih (F.delArg k) ⟨kdel n.named k, n.va, kdel n.extra k⟩ hB' hr
       exact ⟨hB'', by rw [← e1]; exact e3, by rw [← e2]; exact e4⟩
 
+
+
+theorem fill_congr_orElse {m m' : KW} {ps : List Param}
+    (h : ∀ p ∈ ps, (kget m p.name).orElse (fun _ => p.dflt) = (kget m' p.name).orElse (fun _ => p.dflt)) :
+    fill m ps = fill m' ps := by
+  induction ps with
+  | nil => rfl
+  | cons p r ih =>
+    simp only [fill]
+    rw [h p (List.mem_cons_self ..), ih (fun q hq => h q (List.mem_cons_of_mem _ hq))]
+
+theorem keys_withDefaults_sublist (f : KW) (ps : List Param) :
+    (keys (withDefaults f ps)).Sublist (ps.map (·.name)) := by
+  induction ps with
+  | nil => simp [withDefaults, keys]
+  | cons p ps ih =>
+    simp only [withDefaults, List.filterMap_cons, List.map_cons]
+    cases hv : (kget f p.name).orElse (fun _ => p.dflt) with
+    | none => simp only [Option.map_none]; exact (ih).cons _
+    | some v => simp only [Option.map_some, keys, List.map_cons]; exact (ih).cons₂ _
+
+/-- The JSON round trip of a functor built from `n` is a functor built from `n` with the defaults
+made explicit. -/
+theorem built_json (s : Sig) (hwf : s.wf = true) (F : Functor) (n : Named) (hB : Built s F n) :
+    Built s F.jsonRoundTrip
+      ⟨withDefaults F.bound s.pos ++ withDefaults F.bound s.kwonly, F.va.getD [], n.extra⟩ := by
+  obtain ⟨hsig, hnd, hnamed, hextra, hexv, hva, hvas, hnovk⟩ := hB
+  subst hsig
+  have hpn : (F.sig.pos.map (·.name)).Nodup := Sig.wf_pos_nodup hwf
+  have hkn : (F.sig.kwonly.map (·.name)).Nodup := Sig.wf_kw_nodup hwf
+  have hP : ∀ p ∈ withDefaults F.bound F.sig.pos, F.sig.names.contains p.1 = true := fun p hp =>
+    Sig.pos_sub_names F.sig (keys_withDefaults_sub _ _ _ (mem_keys_of_mem hp))
+  have hK : ∀ p ∈ withDefaults F.bound F.sig.kwonly, F.sig.names.contains p.1 = true := fun p hp =>
+    List.contains_iff_mem.2 (List.mem_append_right _ (keys_withDefaults_sub _ _ _ (mem_keys_of_mem hp)))
+  have hE : ∀ p ∈ F.bound.filter (fun p => !(F.sig.names.contains p.1)), F.sig.names.contains p.1 = false := by
+    intro p hp; rw [List.mem_filter] at hp; simpa using hp.2
+  refine ⟨rfl, ?_, ?_, ?_, ?_, ?_, ?_, ?_⟩
+  · -- nodup
+    simp only [Functor.jsonRoundTrip]
+    rw [keys_append, keys_append, List.nodup_append]
+    refine ⟨?_, ?_, ?_⟩
+    · rw [List.nodup_append]
+      refine ⟨List.Nodup.sublist (keys_withDefaults_sublist _ _) hpn,
+              List.Nodup.sublist (keys_withDefaults_sublist _ _) hkn, ?_⟩
+      intro a ha b hb e; subst e
+      exact Sig.wf_kw_not_pos hwf (keys_withDefaults_sub _ _ _ hb) (keys_withDefaults_sub _ _ _ ha)
+    · rw [keys_filter (fun k => !(F.sig.names.contains k))]
+      exact List.Nodup.sublist List.filter_sublist hnd
+    · intro a ha b hb e; subst e
+      obtain ⟨q, hq, hqe⟩ := exists_of_mem_keys hb
+      have h1 := hE q hq
+      rw [hqe] at h1
+      rcases List.mem_append.1 ha with ha | ha
+      · obtain ⟨q', hq', hqe'⟩ := exists_of_mem_keys ha
+        have := hP q' hq'; rw [hqe', h1] at this; cases this
+      · obtain ⟨q', hq', hqe'⟩ := exists_of_mem_keys ha
+        have := hK q' hq'; rw [hqe', h1] at this; cases this
+  · simp only [Functor.jsonRoundTrip]
+    rw [List.filter_append, List.filter_append, List.filter_eq_self.2 hP, List.filter_eq_self.2 hK,
+      List.filter_eq_nil_iff.2 (fun p hp => by rw [hE p hp]; simp)]
+    simp
+  · simp only [Functor.jsonRoundTrip]
+    rw [List.filter_append, List.filter_append,
+      List.filter_eq_nil_iff.2 (fun p hp => by rw [hP p hp]; simp),
+      List.filter_eq_nil_iff.2 (fun p hp => by rw [hK p hp]; simp),
+      List.filter_eq_self.2 (fun p hp => by rw [hE p hp]; rfl)]
+    simpa using hextra
+  · intro p hp hpn'
+    simp only [Functor.jsonRoundTrip] at hp
+    rcases List.mem_append.1 hp with hp | hp
+    · rcases List.mem_append.1 hp with hp | hp
+      · rw [hP p hp] at hpn'; cases hpn'
+      · rw [hK p hp] at hpn'; cases hpn'
+    · exact hexv p (List.mem_filter.1 hp).1 hpn'
+  · simp only [Functor.jsonRoundTrip]
+    cases hv : F.sig.varargs with
+    | some vn => rfl
+    | none =>
+      cases hf : F.va with
+      | none => rfl
+      | some xs => have := hvas (by rw [hf]; rfl); rw [hv] at this; cases this
+  · intro hne
+    simp only [Functor.jsonRoundTrip] at hne
+    cases hv : F.sig.varargs with
+    | some vn => rfl
+    | none => rw [hv] at hne; cases hne
+  · intro p hp
+    simp only [Functor.jsonRoundTrip] at hp
+    intro hvn
+    have hnn : p.1 ∉ F.sig.names := Sig.wf_varargs_not_name hwf hvn
+    rcases List.mem_append.1 hp with hp | hp
+    · rcases List.mem_append.1 hp with hp | hp
+      · exact hnn (List.contains_iff_mem.1 (hP p hp))
+      · exact hnn (List.contains_iff_mem.1 (hK p hp))
+    · exact hnovk p (List.mem_filter.1 hp).1 hvn
+
+
+theorem nameArgs_empty_if (s : Sig) (b : Bool) :
+    nameArgs s (if b = true then dropExtras s Call.empty else Call.empty) = .ok ⟨[], [], []⟩ := by
+  cases b
+  · exact nameArgs_empty s
+  · simp [nameArgs, dropExtras, Call.empty, bindKw]
+
+/-- The round-tripped functor calls like the original: `from_json(to_json(F))()` is `F()`. -/
+theorem functorCall_json (s : Sig) (hwf : s.wf = true) (F : Functor) (n : Named) (hB : Built s F n) :
+    functorCall true F.jsonRoundTrip Call.empty none none = functorCall true F Call.empty none none := by
+  have hBj := built_json s hwf F n hB
+  rw [functorCall_eq s hwf F.jsonRoundTrip _ ⟨[], [], []⟩ hBj Call.empty none none rfl
+        (fun p hp => by simp [Call.empty] at hp) (nameArgs_empty_if s _) (Or.inr (conflicts_empty_right _)),
+      functorCall_eq s hwf F n ⟨[], [], []⟩ hB Call.empty none none rfl
+        (fun p hp => by simp [Call.empty] at hp) (nameArgs_empty_if s _) (Or.inr (conflicts_empty_right _)),
+      mergeNamed_empty_right, mergeNamed_empty_right]
+  obtain ⟨hsig, _, hnamed, _, _, hva, _, _⟩ := hB
+  subst hsig
+  have hpn : (F.sig.pos.map (·.name)).Nodup := Sig.wf_pos_nodup hwf
+  have hkn : (F.sig.kwonly.map (·.name)).Nodup := Sig.wf_kw_nodup hwf
+  obtain ⟨hp1, hp2⟩ := kget_withDefaults F.bound F.sig.pos hpn
+  obtain ⟨hk1, hk2⟩ := kget_withDefaults F.bound F.sig.kwonly hkn
+  have hget : ∀ p ∈ F.sig.params,
+      (kget (withDefaults F.bound F.sig.pos ++ withDefaults F.bound F.sig.kwonly) p.name).orElse (fun _ => p.dflt)
+        = (kget n.named p.name).orElse (fun _ => p.dflt) := by
+    intro p hp
+    have hpn' : F.sig.names.contains p.name = true := by
+      apply List.contains_iff_mem.2
+      simp only [Sig.params, List.mem_append] at hp
+      simp only [Sig.names, Sig.posNames, Sig.kwNames, List.mem_append, List.mem_map]
+      exact hp.imp (fun h => ⟨p, h, rfl⟩) (fun h => ⟨p, h, rfl⟩)
+    have hn : kget n.named p.name = kget F.bound p.name := by
+      rw [← hnamed, kget_filter (fun k => F.sig.names.contains k), hpn']; rfl
+    have hval : kget (withDefaults F.bound F.sig.pos ++ withDefaults F.bound F.sig.kwonly) p.name = pval F.bound p := by
+      rw [kget_append]
+      rcases List.mem_append.1 hp with hp | hp
+      · rw [hp1 p hp]
+        cases hv : pval F.bound p with
+        | some v => rfl
+        | none =>
+          simp only
+          exact hk2 _ (fun h => Sig.wf_kw_not_pos hwf h (List.mem_map.2 ⟨p, hp, rfl⟩))
+      · rw [hp2 _ (Sig.wf_kw_not_pos hwf (List.mem_map.2 ⟨p, hp, rfl⟩))]
+        exact hk1 p hp
+    rw [hval, hn]
+    unfold pval
+    cases kget F.bound p.name <;> cases p.dflt <;> rfl
+  unfold complete
+  simp only
+  rw [fill_congr_orElse (fun p hp => hget p (List.mem_append_left _ hp)),
+      fill_congr_orElse (fun p hp => hget p (List.mem_append_right _ hp)), hva]
+
 end Pg.C18
